@@ -9,7 +9,7 @@ from . import c08
 
 PROP = "C11"
 SOLVE_GRID = (0.05, 0.1, 0.29, 0.5, 0.9)
-EXTREME = (1e-6, 0.99, 1 - 1e-9, 1e-12, 1 - 2e-11, 1 / 3, 0.30000000000000004)      # incl. values Python prints in scientific notation, without a short decimal form, or as an arithmetic artefact
+EXTREME = (1e-6, 0.99, 1 - 1e-9, 1e-12, 1 - 2e-11, 1 / 3, 0.30000000000000004, 0.025, 0.125, 0.625)      # incl. values Python prints in scientific notation, without a short decimal form, or as an arithmetic artefact
 BASE = {"rb": 0.1, "lb": 0.1, "tb": 0.1, "lt": 0.3}
 KEYS = ["game_a", "game_b", "game_c"]
 
@@ -151,7 +151,7 @@ def overwrite_findings():
     for first, second in OVERWRITE_PAIRS:
         with gen.Scratch() as sc:
             e = gen.run_main(**second)
-            ref = open(os.path.join("inputs", sc.files()[0])).read() if e is None and len(sc.files()) == 1 else None
+            ref = open(os.path.join("inputs", sc.files()[0]), "rb").read() if e is None and len(sc.files()) == 1 else None
         with gen.Scratch() as sc:
             e1 = gen.run_main(**first)
             e2 = gen.run_main(**second)
@@ -161,7 +161,7 @@ def overwrite_findings():
             if e1 is not None or e2 is not None or len(files) != 1:
                 why = "calls raised %r / %r and left %r" % (e1, e2, files)
             else:
-                text = open(os.path.join("inputs", files[0])).read()
+                text = open(os.path.join("inputs", files[0]), "rb").read()
                 try:
                     d = CR.read_dict_from_file(os.path.join("inputs", files[0]))
                     why = structural(d)
@@ -342,7 +342,7 @@ def dispatch(shard):
 
 RULE = ("command-line path roberta_generator.main() in a scratch directory over the listed grid: seeds x sizes x max reward x force-down x the four "
         "probabilities varied one (thorough: two) at a time over the solve grid {0.05,0.1,0.29,0.5,0.9} (file + solve) and the extreme grid "
-        "{1e-6, 0.99, 1-1e-9, 1e-12, 1-2e-11, 1/3, 0.30000000000000004} and very long/wide boards (file structure only); manual path create_sg_from_board on every board of the <= 3-tile "
+        "{1e-6, 0.99, 1-1e-9, 1e-12, 1-2e-11, 1/3, 0.30000000000000004, and the exact half-percent values 0.025, 0.125, 0.625} and very long/wide boards (file structure only); manual path create_sg_from_board on every board of the <= 3-tile "
         "universe and on every arrow layout of a 2x3 and a 3x2 board (structure); non-trivial = non-square, force-down or non-default probabilities")
 ASSUME = ["termination of the batch run is only claimed on the solve grid; with a failure probability of 1e-6 the solver legitimately needs ~3e7 sweeps",
           "a batch run that does not return within the alarm on a game that has an end component among its non-absorbing states (i.e. is not a "
